@@ -147,7 +147,7 @@ func evalC07(c c07Case) (f *Failure, nontrivial bool) {
 		start = time.Now()
 		net := memnet.New()
 		var wsLink *memnet.Link
-		net.OnFirstWrite = func(l *memnet.Link, data []byte) {
+		net.SetOnFirstWrite(func(l *memnet.Link, data []byte) {
 			if bytes.Contains(data, []byte("Upgrade: websocket")) || bytes.Contains(data, []byte("Upgrade: WebSocket")) {
 				mu.Lock()
 				wsLink = l
@@ -164,7 +164,7 @@ func evalC07(c c07Case) (f *Failure, nontrivial bool) {
 					l.Blackhole(true, true)
 				}
 			}
-		}
+		})
 		server := eio.NewServer(func(s eio.ServerSocket) *eio.Callbacks {
 			mu.Lock()
 			srv = s
